@@ -12,6 +12,7 @@ from typing import (
     Mapping,
     Optional,
     Sequence,
+    Set,
     Tuple,
 )
 
@@ -65,6 +66,7 @@ class GizaYamlDomain:
             "extracts": extracts.GizaExtractsCategory(self.config),
             "release": release.GizaReleaseSpecificationCategory(self.config),
         }
+        self.uncacheable: Set[str] = set()
 
     def load_and_generate(
         self,
@@ -84,16 +86,26 @@ class GizaYamlDomain:
                 text_blake2b = hashlib.blake2b(bytes(text, "utf-8")).hexdigest()
                 our_entries[path] = (text_blake2b, text, reading_diagnostics)
 
+            # Diagnostics from reading a file depend on its raw contents, which the hash of the
+            # resulting text does not determine: neither use nor create cached data for this category.
+            if any(entry[2] for entry in our_entries.values()):
+                self.uncacheable.add(prefix)
+            else:
+                self.uncacheable.discard(prefix)
+
             # If we have a usable cache, load all of our YAML data from that
-            if cache is not None:
+            if cache is not None and prefix not in self.uncacheable:
                 cached_entries = cache.get_yaml_entries(prefix)
-                if validate_cache(cached_entries, our_entries):
+                cached_files = (
+                    self.load_cached_files(cached_entries)
+                    if validate_cache(cached_entries, our_entries)
+                    else None
+                )
+                if cached_files is not None:
                     logger.info(
                         "Cache: loaded %d nodes for %s", len(cached_entries), prefix
                     )
-                    for fileid, cached_entry in cached_entries.items():
-                        giza_file = pickle.loads(cached_entry[1])
-                        assert isinstance(giza_file, nodes.GizaFile)
+                    for fileid, giza_file in cached_files.items():
                         giza_category.add(
                             fileid,
                             our_entries[fileid][0],
@@ -112,6 +124,31 @@ class GizaYamlDomain:
                 giza_category.add(fileid, text, artifacts, entry[2] + diagnostics)
 
             yield from self.generate_pages(prefix, all_diagnostics)
+
+    def load_cached_files(
+        self, cached_entries: Mapping[n.FileId, Tuple[str, bytes]]
+    ) -> "Optional[Dict[n.FileId, nodes.GizaFile[Any]]]":
+        """Unpickle a category's cached giza files. Returns None if any generated page depends
+        on a file (literalinclude, image, doc target...) that has changed since it was cached."""
+
+        def get_hash(fileid: n.FileId) -> str:
+            return hashlib.blake2b(
+                self.config.get_full_path(fileid).read_bytes()
+            ).hexdigest()
+
+        result: Dict[n.FileId, nodes.GizaFile[Any]] = {}
+        for fileid, cached_entry in cached_entries.items():
+            giza_file = pickle.loads(cached_entry[1])
+            assert isinstance(giza_file, nodes.GizaFile)
+            try:
+                for page in giza_file.pages or ():
+                    if not page.dependencies.check_cache(get_hash):
+                        return None
+            except OSError:
+                return None
+            result[fileid] = giza_file
+
+        return result
 
     def categorize(self) -> Dict[str, List[n.FileId]]:
         """Scan the source directory for YAML files we should ingest, and categorize them."""
